@@ -113,6 +113,7 @@ func rulesC18(w *World, r *Report) {
 	}
 
 	r.Rule("C18.R3", "derives-from: view prints printFileData(tow, header, tsList.PointsList(), ShowHeader) of exactly what readWhisperFile(SrcBase, SrcRelPath, ArchiveID, From, until, now) returned; printFileData prints h.String() under showHeader and ptsList.Print(w); TimeSeriesList.PointsList and TimeSeries.Points keep every slot (time from+i*step, i-th value)", 4)
+	rulePrintFileDataHeader(w, r, "C18.R3")
 	if ve := need(w, r, "C18.R3", w.Cmd, "ViewCommand.execute"); ve != nil {
 		ruleUntilDefault(w, r, "C18.R3", ve, []*ssa.Function{fn(w.Cmd, "readWhisperFile")})
 		c, n := singleCall(ve, func(c *ssa.Call) bool { return c.Common().StaticCallee() == fn(w.Cmd, "printFileData") })
@@ -539,6 +540,7 @@ func rulesC19(w *World, r *Report) {
 	ruleEnumTables(w, r, "C19.R4")
 
 	r.Rule("C19.R5", "overflow discipline: inside leadingInt's digit loop a rejecting test bounds the accumulator on every iteration before and after the multiply-add; ParseDuration rejects x > MaxInt32/unit before multiplying; both reject without guards", 3)
+	ruleLeadingIntRepresentatives(w, r, "C19.R5")
 	if li := need(w, r, "C19.R5", w.Lib, "leadingInt"); li != nil {
 		// accumulator: integer phi multiplied by 10
 		var acc *ssa.Phi
@@ -976,6 +978,7 @@ func rulesC20(w *World, r *Report) {
 	ruleGenerateSumOfFiner(w, r, "C20.R5")
 	ruleGenerateChain(w, r, "C20.R5")
 	ruleWriteOrderFinestFirst(w, r, "C20.R5")
+	ruleProductWidth(w, r, "C20.R5")
 	r.Rule("C20.R6", "the requested layout reaches the command: each flag.Value (aggregation method, xFilesFactor, retention list, file mode, timestamps) stores what it parsed into the option it was registered for before reporting success", 5)
 	ruleFlagSetStores(w, r, "C20.R6")
 	ruleC05R7(w, r, "C05.R7", 2, cmdReachableFrom(w, "GenerateCommand"))
